@@ -78,6 +78,8 @@ Checks(x) ==
   [n |-> "C05_Schema_Outcome", v |-> ~render => (Len(o.schema) = 3 /\ (c.schema = "local" => \A a \in DOMAIN o.schema : o.schema[a] = "accept"))],
   (* ---- C08: every document in exactly one place, in order ----------------------------- *)
   \* NOTES.txt (at any depth) and partials neither reach the manifest nor make the operation fail
+  \* nothing is lost under --no-hooks: a dry run with DisableHooks (client-only and through a cluster connection) still lists every hook
+  [n |-> "C08_NoHooks_Same", v |-> render => o.noHooksSame],
   [n |-> "C08_NoFailure",    v |-> (render /\ r.err = "none") => (ok /\ o.uninstErr = "")],
   [n |-> "C08_Partition",    v |-> (render /\ ok) => C08_Partition(c, man, hks)],
   [n |-> "C08_Classes",      v |-> (render /\ ok) => C08_Classes(c, man, hks)],
@@ -95,7 +97,10 @@ Checks(x) ==
 \* model is not a function of its input, and what was seen is within what the model can produce
 Known(n, x) ==
   LET c == x.case  o == x.obs IN
-  CASE n = "C05_Schema_Isolated" ->
+  CASE n \in {"C05_Det_Manifest", "C05_Det_Engine", "C05_Det_Hooks", "C05_CrdBodySame", "C05_Reuse_Same", "C05_Route_Same", "C05_CfgReuse_Same", "C05_CapsConc_Same"} ->
+         \* AsConfig / AsSecrets over two files with one base name: the winner follows map order; only those payloads vary
+         [k |-> KnownFilesShape(c) /\ o.err = "none" /\ o.dErr = 1 /\ o.dNotes = 1, kf |-> "KF-L22-files-asconfig-basename-map-order"]
+    [] n = "C05_Schema_Isolated" ->
          [k |-> KnownSchemaShape(c) /\ Range(o.schema) \subseteq {"accept", "reject", "error"}, kf |-> "KF-L8-schema-ref-reads-host-files"]
     [] OTHER -> [k |-> FALSE, kf |-> ""]
 
